@@ -40,7 +40,8 @@ RULE = (
     "constant / linear / affine learning-rate schedule, PPO clip_range 0.05-0.3 and clip_range_vf None/0.05/0.2/1 "
     "(constant, or scheduled down to a quarter of the initial value), ent_coef 0-0.5, vf_coef 0.25-2, advantage normalisation on/off, minibatch sizes dividing / not "
     "dividing / equal to the rollout (ragged and length-1 minibatches), 1-3 epochs, max_grad_norm 0.01-100, shared / "
-    "separate / no trainable feature extractor, DQN target_update_interval 1-1000 and reward scale 1-3, SAC fixed / "
+    "separate / no trainable feature extractor (a Linear+Tanh extractor with parameters; also for SAC / TD3 / DDPG, where "
+    "the critic-side features are constants of the objective when the extractor is shared), DQN target_update_interval 1-1000 and reward scale 1-3, SAC fixed / "
     "learned entropy coefficient and 1-3 critics, TD3 policy_delay 1-3, target noise 0.05-0.5 with clip 0.1-0.5, "
     "1-3 gradient steps per train(); 40% of the on-policy cases get an adversarial Gaussian perturbation of the "
     "policy parameters before train() so that probability ratios leave the clip range. Every optimizer step of the "
@@ -138,6 +139,7 @@ def gen_case(rng, widen, thorough):
             case["rscale"] = rng.choice([1.0, 3.0, 3.0])
         else:
             case["act"] = "box"
+            case["fe"] = rng.weighted([("none", 2), ("shared", 3), ("separate", 2)])
             case["n_critics"] = rng.weighted([(1, 1), (2, 3), (3, 1)])
             if algo == "ddpg":
                 case["n_critics"] = rng.weighted([(1, 3), (2, 1)])
@@ -276,8 +278,6 @@ def build(case):
         pk["share_features_extractor"] = case["fe"] == "shared"
         if algo == "dqn":
             pk.pop("share_features_extractor")
-        if algo in ("td3", "ddpg"):
-            pk["share_features_extractor"] = False  # shared extractor in TD3 is documented as unsupported
     kw = dict(policy="MlpPolicy", env=env, learning_rate=make_schedule(case["lr_kind"], case["lr0"], case["lr_end"]),
               gamma=case["gamma"], seed=case["seed"], device="cpu", verbose=0)
     if algo == "ppo":
@@ -385,9 +385,22 @@ class Rec:
                         for g in opt.param_groups:
                             for p in g["params"]:
                                 grads[rec.names.get(id(p), "?")] = None if p.grad is None else p.grad.detach().clone()
-                        rec.cur["events"].append({"ev": "step", "opt": name, "grads": grads,
-                                                  "lrs": [g["lr"] for g in opt.param_groups], "snap": rec.snap(),
-                                                  "n_updates": int(m._n_updates)})
+                        ev = {"ev": "step", "opt": name, "grads": grads,
+                              "lrs": [g["lr"] for g in opt.param_groups], "snap": rec.snap(),
+                              "n_updates": int(m._n_updates)}
+                        rec.cur["events"].append(ev)
+                        out = orig(*a, **k)
+                        own = set(grads)
+                        moved = [n for n, p in m.policy.named_parameters()
+                                 if n not in own and not th.equal(ev["snap"]["policy"][n], p.detach())]
+                        if "log_ent_coef" in ev["snap"] and "log_ent_coef" not in own and \
+                                not th.equal(ev["snap"]["log_ent_coef"], m.log_ent_coef.detach()):
+                            moved.append("log_ent_coef")
+                        ev["moved_not_owned"] = moved
+                        ev["moved_owned"] = sum(
+                            1 for n, p in m.policy.named_parameters()
+                            if n in own and not th.equal(ev["snap"]["policy"][n], p.detach()))
+                        return out
                     return orig(*a, **k)
 
                 opt.step = step
@@ -731,6 +744,21 @@ def dqn_checks(ctx, case, rec, tr):
     return checks, None
 
 
+# ---- critics of SAC / TD3 -----------------------------------------------------------------------
+def critic_qs(critic, obs, actions, features_const):
+    """Q_k(phi(obs), actions) for every critic k (batch x n_critics), written from the objective, not through
+    ContinuousCritic.forward / q1_forward.  features_const: the critic only READS the features (shared features
+    extractor: it is learned through the actor's own path only; deterministic policy gradient of TD3: the critic
+    path of the actor loss never trains the extractor) -> features are constants of the objective."""
+    import torch as th
+
+    feats = critic.extract_features(obs, critic.features_extractor)
+    if features_const:
+        feats = feats.detach()
+    x = th.cat([feats, actions], dim=1)
+    return th.cat([q(x) for q in critic.q_networks], dim=1)
+
+
 # ---- SAC ----------------------------------------------------------------------------------------
 def split_gradient_steps(evs):
     groups = []
@@ -795,9 +823,9 @@ def sac_checks(ctx, case, rec, tr):
             th.set_rng_state(rng_next)
             with th.no_grad():
                 na, nlp = rec.ref.actor.action_log_prob(b.next_observations)
-                nqs = th.cat(rec.ref.critic_target(b.next_observations, na), dim=1)
+                nqs = critic_qs(rec.ref.critic_target, b.next_observations, na, True)
             th.set_rng_state(keep)
-            qs = th.cat(rec.ref.critic(b.observations, b.actions), dim=1)
+            qs = critic_qs(rec.ref.critic, b.observations, b.actions, case["fe"] == "shared")
             return qs, nqs, nlp.reshape(-1, 1)
 
         n = b.rewards.shape[0]
@@ -854,7 +882,7 @@ def sac_checks(ctx, case, rec, tr):
         st = by["actor"]
         sc = StepCheck(case, rec, tr, "sac/actor", st)
         a_pi, lp = fwd_pi(st["snap"])
-        qpi = th.cat(rec.ref.critic(b.observations, a_pi), dim=1)
+        qpi = critic_qs(rec.ref.critic, b.observations, a_pi, case["fe"] == "shared")
         j_pi = (alpha * lp - qpi.min(dim=1, keepdim=True).values).sum() / n
         sc.oracle = loss_grads(rec.ref, j_pi)
         srt = th.sort(qpi.detach(), dim=1).values
@@ -867,7 +895,7 @@ def sac_checks(ctx, case, rec, tr):
         def backprop(outs, st=st, fwd_pi=fwd_pi, b=b):
             o = outs[0]
             a_pi, lp = fwd_pi(st["snap"])
-            qpi = th.cat(rec.ref.critic(b.observations, a_pi), dim=1)
+            qpi = critic_qs(rec.ref.critic, b.observations, a_pi, case["fe"] == "shared")
             for k in o["argmin"]:
                 ctx.report.count(f"sac_actor_argmin:{k}")
             return named_grads(rec.ref, [lp, qpi], [t32(o["cot_logp"]), t32m(o["cot_q"])]), \
@@ -918,8 +946,8 @@ def td3_checks(ctx, case, rec, tr):
             with th.no_grad():
                 pi_t = rec.ref.actor_target(b.next_observations)
                 na = th.clamp(pi_t + th.clamp(noise, -c, c), -1.0, 1.0)
-                nqs = th.cat(rec.ref.critic_target(b.next_observations, na), dim=1)
-            qs = th.cat(rec.ref.critic(b.observations, b.actions), dim=1)
+                nqs = critic_qs(rec.ref.critic_target, b.next_observations, na, True)
+            qs = critic_qs(rec.ref.critic, b.observations, b.actions, case["fe"] == "shared")
             return qs, nqs, pi_t, noise, na
 
         st = steps[0]
@@ -965,7 +993,7 @@ def td3_checks(ctx, case, rec, tr):
 
             def fwd_actor(snap, b=b):
                 load(rec.ref, snap)
-                return rec.ref.critic.q1_forward(b.observations, rec.ref.actor(b.observations))
+                return critic_qs(rec.ref.critic, b.observations, rec.ref.actor(b.observations), True)[:, 0:1]
 
             q1 = fwd_actor(st["snap"])
             sc.oracle = loss_grads(rec.ref, -(q1.sum() / n))
@@ -1006,6 +1034,11 @@ def oracle_step(ctx, case, sc):
                       {"lrs": st["lrs"], "expected": want_lr, "num_timesteps": sc.tr["num_timesteps"],
                        "total": sc.tr["total"], "optimizer": sc.label})
         return True
+    if st.get("moved_not_owned"):
+        rep.violation("optimizer.step changed parameters that the stepping optimizer does not own", case,
+                      sig(case, sc, "frame"), {"optimizer": sc.label, "moved": st["moved_not_owned"][:8]})
+        return True
+    rep.count("frame_checked_steps")
     if sc.oracle_skip:
         rep.count("oracle_near_kink_skipped")
         return False
